@@ -285,6 +285,14 @@ def job(payload):
         query = rng.choice(QUERIES_FILE if files else QUERIES_NOFILE)
         args = [rng.choice(ARGS) for _ in range(rng.choice([0, 0, 1, 1, 2]))]
         how = rng.choice(["-e", "-f", "pos"])
+        if rng.random() < 0.08:
+            # counting across combinations of which some raise after a few results and later ones do not
+            flags = ["-c"] + [f for f in ("-s", "-H", "-h") if rng.random() < 0.25]
+            files = []
+            query = rng.choice([q for q in QUERIES_NOFILE if q.startswith("(|A|") and "==" in q])
+            args = [rng.choice([("--a", "(1, 2, 3)"), ("--a", "(1, 2)"), ("--a", '("p", "q")'), ("--a", "(2, 1, 2)")])]
+            if rng.random() < 0.3:
+                args.append(rng.choice(ARGS))
         try:
             exp = expected(d, flags, query, files, args)
         except (common.DriverCrash, common.DriverTimeout) as ex:
